@@ -403,6 +403,21 @@ Definition assign (hc : bool) (st : bstate) (i : nat) (idx : nat) (units : bool)
       end
   end.
 
+(* item.origin_reference = v (public setter): the value must be an int *)
+Definition with_origin (it : item) (o : option Z) : item :=
+  {| i_ty := i_ty it; i_set := i_set it; i_name := i_name it; i_origin := o; i_copy := i_copy it;
+     i_attrs := i_attrs it; i_dataset := i_dataset it; i_cast := i_cast it |}.
+Definition set_origin (st : bstate) (i : nat) (r : raw) : bstate * outcome :=
+  match nth_error (b_items st) i with
+  | None => (st, Rejected EOther)
+  | Some it =>
+      match r with
+      | RInt z => (set_item st i (with_origin it (Some z)), Accepted None)
+      | RBool _ => (st, Rejected EOther)          (* bool is an int: outside the model *)
+      | _ => (st, Rejected EType)
+      end
+  end.
+
 Inductive op :=
 | OAddLF (hid seq : raw)
 | OAdd (l ty : nat) (name : raw) (sn : oname) (origin : raw) (kw : list (nat * praw))
@@ -413,7 +428,8 @@ Inductive op :=
 | OAssign (i idx : nat) (units : bool) (r : raw)
 | ONoFmt (l : nat) (obj : raw) (p : payload_in)
 | OQuery (l : nat)                       (* lf.channels / frames / origins / defining_origin: read-only *)
-| OEnterHC | OExitHC.
+| OEnterHC | OExitHC
+| OSetOrigin (i : nat) (r : raw).
 
 (* process-level flag with the save/restore stack of the context manager *)
 Record pstate := { p_hc : bool; p_stack : list bool }.
@@ -436,6 +452,7 @@ Definition step (ps : pstate) (st : bstate) (o : op) : pstate * bstate * outcome
                | b :: r => ({| p_hc := b; p_stack := r |}, st, Accepted None)
                | [] => (ps, st, Rejected EOther)
                end
+  | OSetOrigin i r => let '(st', out) := set_origin st i r in (ps, st', out)
   end.
 
 Fixpoint run_ops (ps : pstate) (st : bstate) (ops : list op) : pstate * bstate * list outcome :=
